@@ -64,7 +64,7 @@ fn head_tail_array() -> [u8; 512] {
     a
 }
 
-//@ {"p":"C12","tier":"quick","clause":"decoding the non-text memo classes: 0xF6 followed by zeros is Empty, 0xFF is Arbitrary carrying the other 511 bytes, 0xF5 / 0xF6-with-payload / 0xF7..0xFE are Future carrying all 512 bytes","bounds":"512-byte arrays with first byte >= 0xF5 whose first 8 and last 8 bytes are symbolic and the rest zero","covers":4,"t":1800}
+//@ {"p":"C12","tier":"experimental","clause":"(out of memory after 1580 s) decoding the non-text memo classes: 0xF6 followed by zeros is Empty, 0xFF is Arbitrary carrying the other 511 bytes, 0xF5 / 0xF6-with-payload / 0xF7..0xFE are Future carrying all 512 bytes","bounds":"512-byte arrays with first byte >= 0xF5 whose first 8 and last 8 bytes are symbolic and the rest zero","covers":4,"t":1800}
 #[kani::proof]
 #[kani::unwind(514)]
 fn c12_memo_nontext_decode() {
@@ -168,7 +168,7 @@ fn utf8_valid(s: &[u8]) -> bool {
     true
 }
 
-//@ {"p":"C12","tier":"quick","clause":"text memos: for a first byte <= 0xF4 decoding succeeds iff the bytes up to the last non-zero byte are valid UTF-8 (independent table 3-7 validator); the text is exactly those bytes and encoding it reproduces the 512-byte array","bounds":"memos whose non-zero content lies in the first 4 bytes (all 2^32 such prefixes), zero padded to 512","covers":3,"t":1800}
+//@ {"p":"C12","tier":"experimental","clause":"(did not finish in 1800 s) text memos: for a first byte <= 0xF4 decoding succeeds iff the bytes up to the last non-zero byte are valid UTF-8 (independent table 3-7 validator); the text is exactly those bytes and encoding it reproduces the 512-byte array","bounds":"memos whose non-zero content lies in the first 4 bytes (all 2^32 such prefixes), zero padded to 512","covers":3,"t":1800}
 #[kani::proof]
 #[kani::unwind(514)]
 fn c12_memo_text_roundtrip() {
